@@ -1117,7 +1117,7 @@ static void emitFunction(const Function& F, std::ostream& out)
                         else
                         {
                             // scalar reinterpretation (float <-> int)
-                            os << "    { " << useTy(st) << " _s = " << op(0) << "; __builtin_memcpy(&" << lhs << ", &_s, sizeof(" << lhs
+                            os << "    { " << useTy(st) << " _s = " << op(0) << "; memcpy(&" << lhs << ", &_s, sizeof(" << lhs
                                << ")); }\n";
                         }
                         break;
@@ -1193,7 +1193,7 @@ static void emitFunction(const Function& F, std::ostream& out)
                     }
                 }
                 if (isa<UndefValue>(iv->getAggregateOperand()))
-                    os << "    __builtin_memset(&" << lhs << ", 0, sizeof(" << lhs << "));\n";
+                    os << "    memset(&" << lhs << ", 0, sizeof(" << lhs << "));\n";
                 else
                     os << "    " << lhs << " = " << op(0) << ";\n";
                 os << "    " << e << " = " << op(1) << ";\n";
